@@ -428,6 +428,63 @@ func runC06(rc *RunCtx) {
 		return
 	}
 	exp := expectedUniq(recs, o)
+	defer func() {
+		// round trip: obidemerge turns every merged map back into one record per value with
+		// exactly those counts
+		if rc.Out.Status != "ok" || !o.MergeSample || o.CatSample || rc.Plan.Choose(3) != 0 {
+			return
+		}
+		rc.Probe("demerge_round_trip")
+		d2 := filepath.Join(dir, "demerge")
+		os.MkdirAll(d2, 0755)
+		dm := rc.RunCmd(CmdSpec{Name: "obidemerge", Dir: d2, PoolPolicy: p.Pool, YieldDensity: p.Yield,
+			Args: []string{"--max-cpu", fmt.Sprint(p.MaxCPU), "--batch-size", fmt.Sprint(p.BatchSize), "-d", "sample", "-o", filepath.Join(d2, "out.fasta"), filepath.Join(dir, "out.fasta")}})
+		if !rc.cmdMustSucceed(dm, "C06/demerge", "obidemerge -d sample on the output of obiuniq") {
+			return
+		}
+		raw2, _ := os.ReadFile(filepath.Join(d2, "out.fasta"))
+		got2, err := parseObiFasta(raw2)
+		if err != nil {
+			rc.Violate("C06/demerge/unparsable-output", "%v", err)
+			return
+		}
+		var obsD, expD []string
+		for _, r := range got2 {
+			c, _ := annotInt(r.Annot["count"])
+			if _, still := r.Annot["merged_sample"]; still {
+				rc.Violate("C06/demerge/merged-slot-left", "record %s still carries merged_sample after obidemerge", r.ID)
+				return
+			}
+			tag := "-"
+			if o.CatTag {
+				tag = "NA"
+				if o.NA != "" {
+					tag = o.NA
+				}
+				if v, ok := r.Annot["tag"]; ok {
+					tag = fmt.Sprint(v)
+				}
+			}
+			obsD = append(obsD, fmt.Sprintf("seq=%s|tag=%s|sample=%v|count=%d", r.Seq, tag, r.Annot["sample"], c))
+		}
+		for _, e := range exp {
+			// e = seq=..|tag=..|sample=-|count=N|merged_sample={k:v,...}
+			parts := strings.Split(e, "|")
+			mm := strings.TrimSuffix(strings.TrimPrefix(parts[4], "merged_sample={"), "}")
+			for _, kv := range strings.Split(mm, ",") {
+				if kv == "" {
+					continue
+				}
+				i := strings.LastIndex(kv, ":")
+				expD = append(expD, fmt.Sprintf("%s|%s|sample=%s|count=%s", parts[0], parts[1], kv[:i], kv[i+1:]))
+			}
+		}
+		sort.Strings(obsD)
+		sort.Strings(expD)
+		if !equalStrings(obsD, expD) {
+			rc.Violate("C06/demerge/round-trip", "obiuniq %v | obidemerge -d sample (%s): %s", o.args(), p, firstDiff(obsD, expD))
+		}
+	}()
 	if !equalStrings(obs, exp) {
 		tot := func(a []string) int {
 			s := 0
